@@ -304,7 +304,15 @@ fn exhaustive(ctx: &Ctx, stats: &Stats) -> Vec<Failure> {
         for l in &lines {
             stats.nontrivial(fnv(format!("{}/{}", job.curve, l.text).as_bytes()));
         }
-        run_lines(ctx, HEADER, &lines, "}\n", job.curve, job.curve, &format!("c11x-{}", job.kind))
+        run_lines(ctx, HEADER, &lines, "}\n", job.curve, job.curve, &format!("c11x-{}", job.kind))?;
+        if matches!(job.kind, "table" | "num2bits-literal" | "bits2num-literal" | "lessthan") {
+            // the same instantiations inside `template parallel Top` of a file with a main component
+            // (programs with a main component are assembled by another code path)
+            let header = HEADER.replace("template Top(n)", "template parallel Top(n)");
+            stats.class_n("exhaustive:parallel_template_with_main_component", lines.len() as u64);
+            run_lines(ctx, &header, &lines, "}\ncomponent main = Top(3);\n", job.curve, job.curve, &format!("c11y-{}", job.kind))?;
+        }
+        Ok(())
     });
     fails
         .into_iter()
@@ -424,7 +432,16 @@ fn random_case(ctx: &Ctx, tape: &[u8], rec: &Rec) -> Verdict {
     if t.chance(128) {
         header.push_str("    var zz = 0;\n    for (var zi = 0; zi < 3; zi++) {\n        zz += zi;\n    }\n");
     }
-    let footer = if t.chance(128) { "    signal output zo;\n    zo <== a * b;\n}\n" } else { "}\n" };
+    let with_main = t.chance(100);
+    if t.chance(80) {
+        header = header.replace("template Top(n)", "template parallel Top(n)");
+    }
+    let footer = match (t.chance(128), with_main) {
+        (true, false) => "    signal output zo;\n    zo <== a * b;\n}\n",
+        (false, false) => "}\n",
+        (true, true) => "    signal output zo;\n    zo <== a * b;\n}\ncomponent main = Top(3);\n",
+        (false, true) => "}\ncomponent main = Top(3);\n",
+    };
     rec.sample(|| json!({"curve": curve, "curve_argument": arg, "lines": lines.iter().map(|l| l.text.clone()).collect::<Vec<_>>()}));
     run_lines(ctx, &header, &lines, footer, curve, &arg, "c11r")
 }
